@@ -79,7 +79,7 @@ def module_output_size(module: Module, in_size: ScalarOrTuple[int]) -> ScalarOrT
             kernel_size=module.kernel_size,
             stride=module.stride,
             padding=module.padding,
-            dilation=module.dilation,
+            dilation=getattr(module, "dilation", 1),
             ceil_mode=module.ceil_mode,
         )
     if isinstance(
